@@ -215,7 +215,7 @@ Theorem headers_multi_roundtrip : forall st sid es pr pad f0 cs rs t' fs rest sk
   sink_run (mkSink (fs_maxlist st) false false false []) fs = Some sk' ->
   check_pseudos fs [] false false = true ->
   forall drains,
-  read_frame_gen true true drains st (ser_frame a ++ ser_conts sid cs ++ rest) =
+  read_frame_gen psw_ok true drains st (ser_frame a ++ ser_conts sid cs ++ rest) =
   ROk (mkFrame (f_hdr (frame_of a)) (BMeta pr fs false)) (len (ser_frame a) + len (ser_conts sid cs))
       (mkFs 0 (fs_max st) (fs_maxlist st) (mkD t' (fs_maxlist st) true true [])).
 Proof.
@@ -236,7 +236,7 @@ Proof.
   set (size := len (ser_frame (AHeaders sid es eh pr f0 pad))).
   set (data := ser_frame (AHeaders sid es eh pr f0 pad) ++ ser_conts sid cs ++ rest).
   assert (Hcoll : (if (if eh then 0 else sid) =? 0 then COk [f0] 0
-                   else collect true true drains (length data) (if eh then 0 else sid) (fs_max st) data size 0 [f0]) =
+                   else collect psw_ok true drains (length data) (if eh then 0 else sid) (fs_max st) data size 0 [f0]) =
                   COk (f0 :: cs) (len (ser_conts sid cs))).
   { destruct cs as [|c cs'].
     - subst eh. cbn [N.eqb]. reflexivity.
@@ -308,7 +308,7 @@ Theorem sent_block_read_back : forall st sid es mx rs t' fs rest sk',
   check_pseudos fs [] false false = true ->
   forall drains,
   exists hdr,
-  read_frame_gen true true drains st (ser_fragments sid es (split_block (flat_map ser_repr rs) mx) ++ rest) =
+  read_frame_gen psw_ok true drains st (ser_fragments sid es (split_block (flat_map ser_repr rs) mx) ++ rest) =
   ROk (mkFrame hdr (BMeta None fs false)) (len (ser_fragments sid es (split_block (flat_map ser_repr rs) mx)))
       (mkFs 0 (fs_max st) (fs_maxlist st) (mkD t' (fs_maxlist st) true true [])).
 Proof.
